@@ -16,7 +16,8 @@ from props import _cfg
 ID = 'C06'
 LEAN_MODULES = ['Proofs.C06']
 REQUIRED = ['C06.resolve_idem', 'C06.defaults_agree', 'C06.stage_opts_effective', 'C06.route_independent',
-            'C06.every_stage_reached', 'C06.legacy_mask_dropped_envelope_opts', 'C06.legacy_noise_sift_dropped_options']
+            'C06.every_stage_reached', 'C06.legacy_mask_dropped_envelope_opts', 'C06.legacy_noise_sift_dropped_options',
+            'C06.emit_total', 'C06.emit_route_missing', 'C06.emit_ok_wellformed']
 TRUSTED = ['only stage calls inside the chain get_next_imf -> interp_envelope -> get_padded_extrema are observed (the wrappers track nesting); envelopes computed by frequency_transform for the if mask frequency are not sift stages',
            'the three stage functions get_next_imf / interp_envelope / get_padded_extrema are observed by wrapping the public '
            'module attributes from outside (emd.sift.<name> = wrapper, before any pool forks; workers inherit); each wrapper '
@@ -30,9 +31,12 @@ TRUSTED = ['only stage calls inside the chain get_next_imf -> interp_envelope ->
            'for the envelope, scipy.interpolate splrep/splev/pchip']
 ASSUMPTIONS = ['how often a stage is called depends on the data, which records occur does not: the set of distinct records per '
                'stage is compared (validated: equality of sets on every case)',
-               'option dictionaries are dicts or None; the user does not alias one dict object under two options']
+               'option dictionaries are dicts or None; the user does not alias one dict object under two options',
+               'mask_sift_second_layer forwards a copy of sift_args to mask_sift after setting max_imfs (when absent) and mask_freqs '
+               '(always: an array slice, so get_mask_freqs is never called); it takes no sift function, so of the configuration routes '
+               'only the unpacked configuration exists (model: Route.getFunc -> TypeError, compared on every case)']
 RULE = ('grid: variant {sift, ensemble_sift, complete_ensemble_sift, mask_sift (zc / if / float / explicit frequencies), '
-        'get_next_imf_mask, get_mask_freqs, get_next_imf, sift_second_layer(sift | mask_sift)} x imf options {sd threshold, '
+        'get_next_imf_mask, get_mask_freqs, get_next_imf, sift_second_layer(sift | mask_sift), mask_sift_second_layer} x imf options {sd threshold, '
         'rilling thresholds, fixed iterations, step size, energy threshold} x envelope options {splrep, pchip, mono_pchip} x '
         'extrema options {pad width, parabolic, custom np.pad dicts for locations and magnitudes, empty dict, None} x all '
         'three routes in every case x nprocesses {1, 2} x 3 signal families; plus malformed options (unknown names, duplicated '
@@ -268,6 +272,14 @@ def run_route(case, route, x, with_opts=True):
         else:
             call = cfg.get_func()
             sift_func, sift_args = call, {}
+    if case.get('second') == 2:
+        # mask_sift_second_layer(IA, mask_freqs, sift_args): forwards sift_args to mask_sift; it has no sift_func parameter,
+        # so a ready-made callable (route get_func) cannot be delivered at all (TypeError, as in the model)
+        ia = np.abs(np.c_[x, np.roll(x, 7) * 0.5]) + 0.1
+        freqs = np.array([0.25, 0.1, 0.04])
+        if route == 'get_func':
+            return S.mask_sift_second_layer(ia, freqs, sift_func=sift_func)
+        return S.mask_sift_second_layer(ia, freqs, sift_args=sift_args)
     if case.get('second'):
         ia = np.abs(np.c_[x, np.roll(x, 7) * 0.5]) + 0.1
         return S.sift_second_layer(ia, sift_func=sift_func, sift_args=sift_args)
@@ -313,7 +325,15 @@ class Routing(Stream):
         ('get_mask_freqs', [], 0), ('get_mask_freqs', [['first_mask_mode', 'if']], 0), ('get_mask_freqs', [['first_mask_mode', 0.3]], 0),
         ('get_next_imf', [], 0),
         ('sift', [['max_imfs', 2]], 1), ('mask_sift', [['max_imfs', 2]], 1),
+        # mask_sift_second_layer (second = 2): sift_args forwarded to mask_sift, mask_freqs overwritten per column
+        # (max_imfs is always given: the configuration routes carry mask_sift's default 9, the direct route would default to IA.shape[1])
+        ('mask_sift', [['max_imfs', 2]], 2), ('mask_sift', [['max_imfs', 3], ['nphases', 2], ['mask_amp_mode', 'ratio_sig']], 2),
+        ('mask_sift', [['max_imfs', 2], ['mask_freqs', 'if'], ['nprocesses', 2]], 2),
     ]
+
+    @staticmethod
+    def _vname(v, second):
+        return v + (':mask-second-layer' if second == 2 else ':second-layer' if second else '')
 
     def _case(self, vi, ii, ei, xi, fam='tones', n=192, seed=1, rng_seed=7):
         v, top, second = self.VARIANTS[vi]
@@ -338,7 +358,7 @@ class Routing(Stream):
         return c
 
     def corpus(self):
-        V = {n_: i_ for i_, n_ in reversed(list(enumerate([v[0] + ('2' if v[2] else '') for v in self.VARIANTS])))}
+        V = {n_: i_ for i_, n_ in reversed(list(enumerate([v[0] + {0: '', 1: '2', 2: 'M2'}[v[2]] for v in self.VARIANTS])))}
         out = [
             # D5 witnesses: mask_sift / get_next_imf_mask / get_mask_freqs with pchip or pad 4; complete ensemble noise sifts
             self._case(V['mask_sift'], 0, 2, 0), self._case(V['mask_sift'], 0, 0, 2), self._case(V['mask_sift'], 3, 2, 2),
@@ -352,6 +372,9 @@ class Routing(Stream):
             # a custom pad mode must survive every later padding call that shares the caller's dict (seeded change C06-2)
             self._case(V['sift'], 0, 0, 10), self._case(V['sift'] + 1, 0, 0, 11), self._case(V['mask_sift'], 0, 0, 10),
             self._case(V['sift2'], 0, 0, 10), self._case(V['ensemble_sift'], 0, 0, 11),
+            # mask_sift_second_layer: every stage option, all three delivery attempts
+            self._case(V['mask_siftM2'], 3, 2, 2), self._case(V['mask_siftM2'], 0, 0, 0), self._case(V['mask_siftM2'] + 1, 5, 3, 5),
+            self._case(V['mask_siftM2'] + 2, 2, 2, 10), self._case(V['mask_siftM2'], 6, 0, 7),
         ]
         # malformed options: unknown names, names bound twice, non-dict values, invalid method
         bad = [
@@ -364,6 +387,8 @@ class Routing(Stream):
             dict(self._case(V['sift'], 0, 0, 0), env={'$': 'dict', 'v': [['interp_method', 'cubic']]}),
             dict(self._case(V['sift'], 0, 0, 0), top=[['nope', 1]]),
             dict(self._case(V['ensemble_sift'], 0, 0, 0), top=[['nensembles', 2], ['noise_mode', 'both']]),
+            dict(self._case(V['mask_siftM2'], 0, 0, 0), imf={'$': 'dict', 'v': [['nope', 1]]}),
+            dict(self._case(V['mask_siftM2'], 0, 0, 0), env={'$': 'dict', 'v': [['interp_method', 'cubic']]}),
         ]
         for c in bad:
             c['expect_effect'] = []
@@ -410,7 +435,7 @@ class Routing(Stream):
 
     # ---------------------------------------------------------------- model side
     def ops(self, case, out):
-        args = {'variant': case['variant'], 'second': int(bool(case.get('second'))), 'legacy': LEGACY,
+        args = {'variant': case['variant'], 'second': int(case.get('second') or 0), 'legacy': LEGACY,
                 'top': _cfg.wire({k2: _cfg.build(v2) for k2, v2 in case.get('top', [])}),
                 'imf': _cfg.wire(_cfg.build(case['imf'])) if case['imf'] is not None else 'N',
                 'env': _cfg.wire(_cfg.build(case['env'])) if case['env'] is not None else 'N',
@@ -452,8 +477,14 @@ class Routing(Stream):
                 return []      # run time is not part of C06; counted as skipped in compare()
             return [Failure('harness-raised:' + out['error'], out['msg'])]
         fs = []
-        v = case['variant'] + (':second-layer' if case.get('second') else '')
+        v = self._vname(case['variant'], case.get('second'))
         routes = routes_of(case)
+        if case.get('second') == 2:
+            # no callable can be handed to mask_sift_second_layer: the attempt must be rejected, and is not a delivery route
+            oc = out['routes']['get_func']['outcome']
+            if oc != 'e:TypeError':
+                fs.append(Failure('mask-second-layer-accepts-sift-func', str(oc)))
+            routes = [r_ for r_ in routes if r_ != 'get_func']
         if case.get('malformed'):
             for route in routes:
                 oc = out['routes'][route]['outcome']
@@ -476,7 +507,7 @@ class Routing(Stream):
         return fs
 
     def tags(self, case, out):
-        t = ['variant=' + case['variant'] + ('(second-layer)' if case.get('second') else '')]
+        t = ['variant=' + case['variant'] + ('(mask-second-layer)' if case.get('second') == 2 else '(second-layer)' if case.get('second') else '')]
         for k2 in ('imf', 'env', 'ext'):
             d = case[k2]
             t.append('%s=%s' % (k2, 'None' if d is None else ('{}' if not d['v'] else '+'.join(sorted(x[0] for x in d['v'])))))
